@@ -575,7 +575,27 @@ def discharge(ob, timeout_ms=10000, rounds=2, sum_frame=True, small=()):
         goal = to_z3(g)
         ground = instantiate(qf, univ, goal, rounds=rounds, sum_frame=sum_frame)
         assertions = ground + [z3.Not(goal)]
-        r = _check(assertions, timeout_ms)
+        r = _check_abs(assertions, timeout_ms)
+        if r is None and len(ob.hyps) > FOCUS_TAIL:
+            # focused attempt: the goal from the most recent hypotheses alone (the preceding hints / the statement just
+            # executed).  A subset of the hypotheses, so `unsat` is still a proof; it keeps the nonlinear solver away
+            # from the unrelated products of a long path, which is what makes such queries unstable.
+            try:
+                qf2, univ2 = [], []
+                for h in list(ob.hyps)[-FOCUS_TAIL:] + list(extra):
+                    flatten_hyp(h, qf2, univ2)
+                ground2 = instantiate(qf2, univ2, goal, rounds=rounds, sum_frame=sum_frame)
+                s2 = z3.Solver()
+                s2.set('timeout', min(timeout_ms, 8000))
+                for a in ground2:
+                    s2.add(a)
+                s2.add(z3.Not(goal))
+                if s2.check() == z3.unsat:
+                    r = dict(status='proved', backend='z3-api(last %d hypotheses)' % FOCUS_TAIL)
+            except (NotImplementedError, z3.Z3Exception):
+                pass
+        if r is None:
+            r = _check(assertions, timeout_ms, skip_abs=True)
         r['nhyps'] = len(ground)
         if r['status'] == 'refuted' and r.get('z3model') is not None and univ:
             try:
@@ -693,9 +713,12 @@ def abstract_nl(e, cache):
     return r
 
 
-def _check(assertions, timeout_ms):
+FOCUS_TAIL = 14
+
+
+def _check_abs(assertions, timeout_ms):
     # pass 1: products as uninterpreted terms (congruence + linear arithmetic): fast and robust when the contract's
-    # hints spell out the algebra; pass 2: the real nonlinear query
+    # hints spell out the algebra
     cache = {}
     try:
         s0 = z3.Solver()
@@ -706,6 +729,15 @@ def _check(assertions, timeout_ms):
             return dict(status='proved', backend='z3-api(products abstracted)')
     except z3.Z3Exception:
         pass
+    return None
+
+
+def _check(assertions, timeout_ms, skip_abs=False):
+    # pass 2: the real nonlinear query
+    if not skip_abs:
+        r = _check_abs(assertions, timeout_ms)
+        if r is not None:
+            return r
     s = z3.Solver()
     s.set('timeout', timeout_ms)
     for a in assertions:
